@@ -124,6 +124,21 @@ def handle (line : String) : String :=
         | none => badCase "impl searchlim"
       | _ => badCase "impl searchlim fields"
     | _, _, _, _ => badCase "searchlim fields"
+  -- `loadf <embedded repos> <sidecar repos|none> <readOk>` → `res=e` | `res=o repos=<loaded>`  (a load that may hit a sidecar read fault)
+  | ["loadf", base, side, rok] =>
+    match parseRepos base, (if side == "none" then some none else (parseRepos side).map some), bool? rok with
+    | some base, some side, some rok =>
+      let model := match (Shard.loadIO ⟨base, side, []⟩ rok) with
+        | none => "res=e"
+        | some l => s!"res=o repos={showRepos l}"
+      match fields impl with
+      | ["res=e"] => answer model
+      | ["res=o", r] =>
+        match (kv "repos=" r).bind parseRepos with
+        | some l => if checkLoad base side (some l) then answer model else specFail model "reload-forgot-sidecar"
+        | none => badCase "impl loadf repos"
+      | _ => badCase "impl loadf"
+    | _, _, _ => badCase "loadf fields"
   | ["list", repos, docs, q] =>
     match parseRepos repos, parseDocs docs with
     | some repos, some docs =>
